@@ -190,6 +190,10 @@ func (a *actor) runActorCommandWithConsumer(
 			case <-timer:
 				if interrupt {
 					// Interrupting the command softly, after a timeout.
+					// The command is the leader of its own process group
+					// (see makeShCmd): also kill the children that ignored
+					// the SIGHUP, not just the shell.
+					syscall.Kill(-cmd.Process.Pid, syscall.SIGKILL)
 					killCmd()
 				}
 
